@@ -2,6 +2,7 @@ package diodeh
 
 import (
 	"bytes"
+	"context"
 	"fmt"
 	"io"
 	"os"
@@ -58,6 +59,18 @@ func FatalChild() {
 	os.Exit(7) // not reached
 }
 
+// fatalChildLimit bounds every re-executed child: a child in which Fatal never exits (Close hangs) is killed
+// and judged on what it had written by then (exit code -1).
+const fatalChildLimit = 30 * time.Second
+
+func fatalChildCmd(self, mode string) (*exec.Cmd, context.CancelFunc) {
+	ctx, cancel := context.WithTimeout(context.Background(), fatalChildLimit)
+	cmd := exec.CommandContext(ctx, self)
+	cmd.WaitDelay = 2 * time.Second
+	cmd.Env = append(os.Environ(), "VERIF_C11_FATAL="+mode)
+	return cmd, cancel
+}
+
 // fatalPath: Logger.Fatal closes the diode writer (drains the ring) before os.Exit(1).
 func fatalPath(c *hlib.Ctx) {
 	self, err := os.Executable()
@@ -83,11 +96,11 @@ func fatalPath(c *hlib.Ctx) {
 				}
 				continue
 			}
-			cmd := exec.Command(self)
-			cmd.Env = append(os.Environ(), "VERIF_C11_FATAL="+mode)
+			cmd, cancel := fatalChildCmd(self, mode)
 			var out, errb bytes.Buffer
 			cmd.Stdout, cmd.Stderr = &out, &errb
 			err := cmd.Run()
+			cancel()
 			code := -1
 			if ee, ok := err.(*exec.ExitError); ok {
 				code = ee.ExitCode()
@@ -114,11 +127,11 @@ func fatalPath(c *hlib.Ctx) {
 // Close must not return (and the process must not exit) before they have all been handed to the destination.
 // The Fatal event itself is written after a Close was called: nothing is demanded about it.
 func fatalWhileClosing(c *hlib.Ctx, self, mode string) {
-	cmd := exec.Command(self)
-	cmd.Env = append(os.Environ(), "VERIF_C11_FATAL="+mode)
+	cmd, cancel := fatalChildCmd(self, mode)
 	var out, errb bytes.Buffer
 	cmd.Stdout, cmd.Stderr = &out, &errb
 	err := cmd.Run()
+	cancel()
 	code := -1
 	if ee, ok := err.(*exec.ExitError); ok {
 		code = ee.ExitCode()
